@@ -17,4 +17,19 @@ func (signer *Signer) Verify(req *http.Request) (err error)
   requires the-body-that-is-hashed-is-the-body-that-is-forwarded: signer.excludeBody || (req.Body != nil && ifaceVal(req.Body) != 0 && rdRem[ifaceVal(req.Body)] == fwdLen(ref(req)))
   modifies req.Body, rdRem
   ensures (err == nil) <==> sigAccepts(ref(signer), ref(req))
+
+// ---- the canonical URI that is signed is computed from the escaped path, the form that goes on the wire ----
+ghost var gEncoded string   // the text that buildCanonicalURI percent-encodes
+ufunc escPathOf(u int) string
+
+func buildCanonicalURI(u *url.URL) (uri string)
+  flag ascii
+  flag allocates
+  flag frame=unchecked
+  requires u != nil
+  modifies gEncoded
+  ensures the-signed-path-is-the-escaped-path: len(u.Opaque) == 0 && escPathOf(ref(u)) != "" ==> gEncoded == escPathOf(ref(u))
+  ensures an-empty-path-signs-as-slash: len(u.Opaque) == 0 && escPathOf(ref(u)) == "" ==> uri == "/"
+  ghost at loop[1]: gEncoded := uri
+  invariant[1] 0 <= i && i <= len(uri) && gEncoded == uri
 @*/
